@@ -16,7 +16,9 @@ ModOf(c, m) == FoldLeft(LAMBDA acc, ch : (10 * acc + D(ch)) % m, 0, c)
 
 Known == {"nl.bsn", "nl.onderwijsnummer", "pl.nip", "pl.regon", "pt.nif", "dk.cvr", "fi.alv", "no.orgnr", "es.dni", "ee.kmkr", "mt.vat",
           "lu.tva", "gr.vat", "hu.anum", "be.vat", "si.ddv", "at.uid", "br.cpf", "tr.tckimlik", "ch.uid", "it.iva", "se.orgnr", "fr.siren",
-          "ca.sin", "il.idnr", "co.nit"}
+          "ca.sin", "il.idnr", "co.nit", "de.vat", "hr.oib", "ro.cui", "ru.inn", "us.rtn", "au.abn", "au.acn", "au.tfn", "jp.cn"}
+(* formats with further rules (dates, ranges) that are not transcribed: the checksum is only a NECESSARY condition *)
+Necessary == {"no.fodselsnummer", "fi.hetu", "ch.ssn", "lv.pvn", "pl.pesel"}
 
 AcceptN(m, c) ==
   CASE m = "nl.bsn" -> Len(c) = 9 /\ IsDigits(c) /\ ~AllZero(c) /\ (W(c, <<9, 8, 7, 6, 5, 4, 3, 2>>) + 11 * 9 - D(c[9])) % 11 = 0
@@ -59,8 +61,36 @@ AcceptN(m, c) ==
     [] m = "fr.siren" -> Len(c) = 9 /\ IsDigits(c) /\ Sum(LAMBDA i : IF i % 2 = 0 THEN DigitSum(2 * D(c[i])) ELSE D(c[i]), 9) % 10 = 0
     [] m = "ca.sin" -> Len(c) = 9 /\ IsDigits(c) /\ c[1] \notin {48, 56} /\ Sum(LAMBDA i : IF i % 2 = 0 THEN DigitSum(2 * D(c[i])) ELSE D(c[i]), 9) % 10 = 0
     [] m = "il.idnr" -> Len(c) = 9 /\ IsDigits(c) /\ ~AllZero(c) /\ Sum(LAMBDA i : IF i % 2 = 0 THEN DigitSum(2 * D(c[i])) ELSE D(c[i]), 9) % 10 = 0
+    [] m = "de.vat" -> Len(c) = 9 /\ IsDigits(c) /\ c[1] # 48 /\ FoldLeft(LAMBDA q, ch : ((((IF q = 0 THEN 10 ELSE q) * 2) % 11) + D(ch)) % 10, 5, c) = 1
+    [] m = "hr.oib" -> Len(c) = 11 /\ IsDigits(c) /\ FoldLeft(LAMBDA q, ch : ((((IF q = 0 THEN 10 ELSE q) * 2) % 11) + D(ch)) % 10, 5, c) = 1
+    [] m = "ro.cui" -> /\ Len(c) >= 2 /\ Len(c) <= 10 /\ IsDigits(c) /\ c[1] # 48
+                       /\ LET z == ZFill(c, 10) IN ((W(z, <<7, 5, 3, 2, 1, 7, 5, 3, 2>>) * 10) % 11) % 10 = D(z[10])
+    [] m = "ru.inn" -> /\ IsDigits(c) /\ Len(c) \in {10, 12}
+                       /\ IF Len(c) = 10 THEN (W(c, <<2, 4, 10, 3, 5, 9, 4, 6, 8>>) % 11) % 10 = D(c[10])
+                          ELSE /\ (W(c, <<7, 2, 4, 10, 3, 5, 9, 4, 6, 8>>) % 11) % 10 = D(c[11])
+                               /\ (W(c, <<3, 7, 2, 4, 10, 3, 5, 9, 4, 6, 8>>) % 11) % 10 = D(c[12])
+    [] m = "us.rtn" -> Len(c) = 9 /\ IsDigits(c) /\ W(c, <<3, 7, 1, 3, 7, 1, 3, 7, 1>>) % 10 = 0
+    [] m = "au.abn" -> Len(c) = 11 /\ IsDigits(c) /\ (W(c, <<10, 1, 3, 5, 7, 9, 11, 13, 15, 17, 19>>) + 89 * 10 - 10) % 89 = 0
+    [] m = "au.acn" -> Len(c) = 9 /\ IsDigits(c) /\ (10 - (W(c, <<8, 7, 6, 5, 4, 3, 2, 1>>) % 10)) % 10 = D(c[9])
+    [] m = "au.tfn" -> /\ IsDigits(c) /\ Len(c) \in {8, 9}
+                       /\ IF Len(c) = 9 THEN W(c, <<1, 4, 3, 7, 5, 8, 6, 9, 10>>) % 11 = 0 ELSE W(c, <<10, 7, 8, 4, 6, 3, 5, 1>>) % 11 = 0
+    [] m = "jp.cn" -> /\ Len(c) = 13 /\ IsDigits(c)
+                      /\ 9 - (Sum(LAMBDA i : (IF i % 2 = 0 THEN 1 ELSE 2) * D(c[i + 1]), 12) % 9) = D(c[1])
     [] m = "co.nit" -> /\ Len(c) >= 8 /\ Len(c) <= 16 /\ IsDigits(c)
                        /\ LET ws == <<3, 7, 13, 17, 19, 23, 29, 37, 41, 43, 47, 53, 59, 67, 71>>  n == Len(c) - 1
                               s == Sum(LAMBDA i : ws[i] * D(c[n + 1 - i]), n) % 11
                           IN (IF s < 2 THEN s ELSE 11 - s) = D(c[n + 1])
+
+(* checksum parts of formats with further rules *)
+NecessaryN(m, c) ==
+  CASE m = "no.fodselsnummer" -> /\ Len(c) = 11 /\ IsDigits(c)
+                                 /\ (11 - (W(c, <<3, 7, 6, 1, 8, 9, 4, 5, 2>>) % 11)) % 11 = D(c[10])
+                                 /\ (11 - (W(c, <<5, 4, 3, 2, 7, 6, 5, 4, 3, 2>>) % 11)) % 11 = D(c[11])
+    [] m = "fi.hetu" -> /\ Len(c) = 11 /\ IsDigits(SubSeq(c, 1, 6)) /\ IsDigits(SubSeq(c, 8, 10))
+                        /\ c[11] = <<48,49,50,51,52,53,54,55,56,57,65,66,67,68,69,70,72,74,75,76,77,78,80,82,83,84,85,86,87,88,89>>[ModOf(SubSeq(c, 1, 6) \o SubSeq(c, 8, 10), 31) + 1]
+    [] m = "ch.ssn" -> /\ Len(c) = 13 /\ IsDigits(c) /\ SubSeq(c, 1, 3) = <<55, 53, 54>>
+                       /\ Sum(LAMBDA i : (IF i % 2 = 1 THEN 1 ELSE 3) * D(c[i]), 13) % 10 = 0
+    [] m = "lv.pvn" -> /\ Len(c) = 11 /\ IsDigits(c)
+                       /\ (c[1] > 51 => W(c, <<9, 1, 4, 8, 3, 10, 2, 5, 7, 6, 1>>) % 11 = 3)
+    [] m = "pl.pesel" -> Len(c) = 11 /\ IsDigits(c) /\ (10 - (W(c, <<1, 3, 7, 9, 1, 3, 7, 9, 1, 3>>) % 10)) % 10 = D(c[11])
 =============================================================================
